@@ -14,7 +14,7 @@ from .c01 import draw_fmt, fmt_tag
 ID = "C08"
 PROBES = ['first_session_changed_files']  # reach probes: counters that must be non-zero in a run (a zero is printed and recorded)
 LEVEL = "exploration"
-BUDGET = {"quick": 1200, "thorough": 40000}
+BUDGET = {"quick": 1200, "thorough": 25000}
 WALL = {"quick": 240, "thorough": 3000}
 TECHNIQUE = "deterministic simulation: seeded histories of >= 2 identical sessions over a durable project directory, formatter as simulated party"
 LEVEL_TEXT = ("seeded search over generated projects x approved sets x formatter states; each run is a history of two or three identical "
